@@ -164,6 +164,10 @@ def step (ws : List String) : String :=
     let g := Gti.gtiList md.toInt! pa.toInt! pb.toInt! eps
     let o := Gti.octiList md.toInt! pa.toInt! pb.toInt! eps
     showInts ([(g.length : Int)] ++ unpairs g ++ unpairs o ++ [(eps.length : Int)] ++ eps.flatMap fun e => [if e.saa then 1 else 0, if e.occ then 1 else 0])
+  -- closeends <start> <stop> <s0> <n> ts…  -> marks (the flags are those of the alternating status)
+  | "closeends" :: a :: b :: s0 :: rest =>
+    let (t, _) := takeN rest
+    showInts (Gti.closeEnds a.toInt! b.toInt! (s0 == "1") (ints t) (Gti.entrOf (s0 == "1") t.length))
   -- bingti <emin> <emax> <2n> (start stop)…
   | "bingti" :: a :: b :: rest =>
     let (g, _) := takeN rest
